@@ -1,4 +1,5 @@
 import Driver.C08
+import Driver.C03
 import Driver.C10
 import Driver.C09
 import Driver.C16
@@ -12,6 +13,7 @@ namespace Driver
 
 structure State where
   c08 : C08.St := {}
+  c03 : C03.St := {}
   c10 : C10.St := {}
   c16 : C16.St := {}
   c17 : C17.St := {}
@@ -32,6 +34,7 @@ def step (st : State) (line : String) : State × String :=
   | "c16" :: rest => let (s, o) := C16.step st.c16 rest; ({ st with c16 := s }, o)
   | "c09" :: rest => (st, C09.step rest)
   | "c10" :: rest => let (s, o) := C10.step st.c10 rest; ({ st with c10 := s }, o)
+  | "c03" :: rest => let (s, o) := C03.step st.c03 rest; ({ st with c03 := s }, o)
   | ["sha", h] => (st, match Bytes.ofHex h with | some b => Bytes.toHex (Sha256.sum b) | none => "bad-op")
   | _ => (st, "bad-op")
 
